@@ -10,7 +10,7 @@ Go's machine integers as the translator renders them:
 * slices are `List`s, `*Struct` is `Option Struct`, types the translator does not look into
   (hashes, interface values, channels, …) are atoms (`Atom = Nat`: only equality is ever used);
 * run-time panics are not modelled: an index out of range / a nil dereference yields the type's
-  `default` (= Go's zero value) in the translated term.  Theorems about a translated function speak
+  `default` (= Go's zero value) in the translated term, a division by zero yields 0.  Theorems about a translated function speak
   about the code on the inputs on which the code does not panic.
 -/
 namespace Neutrino.GoInt
